@@ -18,7 +18,7 @@ PX, PY = Edge(-1, "pos"), Edge(-2, "pos")
 def dag_of(name: str, is_async: bool):
     """-> (prog, index of the node that raises when it receives 'BAD')"""
     if name == "linear":
-        nodes = (GNode(edges=(PX,)), GNode(edges=(Edge(0, "pos"), PY), res="m"), GNode(edges=(Edge(1, "pos"),)))
+        nodes = (GNode(edges=(PX,)), GNode(edges=(PY, Edge(0, "kw")), res="m"), GNode(edges=(Edge(1, "kw", ("k",)), Edge(0, "pos"))))
         f = 1
     elif name == "diamond":
         nodes = (GNode(edges=(PX,)), GNode(edges=(Edge(0, "pos"),), consts=(5,)), GNode(edges=(Edge(0, "kw"), Edge(-1, "flag")), res="a"),
@@ -127,8 +127,13 @@ def run_hist(acc, c):
                             if st == "run" and p.nodes[i].setup and view.enters.get(ids[i]):
                                 e["inst"].pre[i] = res.trace[view.enters[ids[i]][0]][2]
         elif k == 8:
-            comp = inst.d.compose("comp", ..., [ids[-1]])
-            res = H.run_controlled(_wrap(p, lambda: comp("c1", "c2")), is_async=p.is_async)
+            if c["dag"] == "linear":
+                comp = inst.d.compose("comp", [ids[0]], [ids[-1]])  # a node as input: its keyword / positional uses are rewired
+                cargs = ("c1",)
+            else:
+                comp = inst.d.compose("comp", ..., [ids[-1]])
+                cargs = ("c1", "c2")
+            res = H.run_controlled(_wrap(p, lambda: comp(*cargs)), is_async=p.is_async)
             acc.evaluations += 1
             ok = res.outcome == "return" and isinstance(res.value, tuple) and len(res.value) == 1 and getattr(res.value[0], "label", None) == ids[-1]
             if not ok:
